@@ -296,6 +296,29 @@ Section Tolerant.
                                    | _ => False end) errF never r
     end.
 
+
+  Lemma res_post_t_mono lo lo' (P P' : out -> nat -> Prop) (E E' : perr -> nat -> Prop) (Q Q' : nat -> Prop) r :
+    res_post_t lo' P E Q r -> lo <= lo' ->
+    (forall o p, P o p -> P' o p) -> (forall e p, E e p -> E' e p) -> (forall p, Q p -> Q' p) ->
+    res_post_t lo P' E' Q' r.
+  Proof.
+    destruct r; cbn [res_post_t]; intros H A B C D; auto. destruct H as (X & Y & Z). repeat split; auto; lia.
+  Qed.
+
+  Lemma errG_weaken lo lo' e p : errG lo' e p -> lo <= lo' -> errG lo e p.
+  Proof.
+    unfold errG. intros (A & B & C) H. split; [lia|]. split; [exact B|].
+    destruct (pe_nodes e) as [n|]; cbn [owithin] in *; auto.
+    destruct C as (T & a & b & SP & X & Y). split; [exact T|]. exists a, b. repeat split; auto; lia.
+  Qed.
+
+  Lemma match92 {A} (P : A -> Prop) (x : str) (a b : A) :
+    P a -> P b -> P (match x with 92%N :: _ => a | _ => b end).
+  Proof.
+    intros Ha Hb. destruct x as [|c r]; [exact Hb|]. destruct c as [|q]; [exact Hb|].
+    repeat (destruct q as [q|q|]; try exact Hb). exact Ha.
+  Qed.
+
   (** a body inside [lo, hi] *)
   Lemma body_chain lo hi n : within lo hi n -> chain lo hi (body_items (Some n)) /\ body_in lo hi (Some n).
   Proof.
@@ -594,4 +617,695 @@ Section Tolerant.
         unfold coll_err. intros e p0 (A & B & Y). repeat split; auto; lia.
     Qed.
   End WithRecT.
+
+  Section WithFuelT.
+    Variable f : nat.
+    Hypothesis IH : forall t, task_pre_t t -> post_t t (run s true cx f t).
+
+    Lemma general_step_t ps o pos : task_pre_t (TGeneral ps o pos) ->
+      post_t (TGeneral ps o pos) (run s true cx (S f) (TGeneral ps o pos)).
+    Proof.
+      intros (PL & G & GO). cbn [task_pos] in PL. cbn [post_t run].
+      assert (PRE : task_pre_t (TCollect ps o cs_empty pos)) by (split; cbn; auto).
+      pose proof (IH _ PRE pos (cinv_t_empty pos)) as P.
+      destruct (run s true cx f (TCollect ps o cs_empty pos)) as [o1 p1|e p1|p1|k|];
+        cbn [res_post_t] in P |- *; auto.
+      - destruct P as (A & B & C). destruct o1 as [|st stopped nlmet eos|]; try exact I.
+        destruct C as [[C T] SO].
+        unfold mk_nodelist. destruct (nodelist_chain s pos p1 (cs_acc st) C T B) as (a & b & M1 & M2 & Q1 & Q2 & Q3 & TN).
+        rewrite M1, M2.
+        assert (W : within pos p1 (NList (Some a) (Some b) (cs_acc st))).
+        { split; [exact TN|]. exists a, b. repeat split; auto. }
+        match goal with |- context [if negb ?m then _ else _] => destruct (negb m) end.
+        + cbn [res_post_t]. unfold gen_err. cbn [mkerr pe_at pe_past pe_nodes]. repeat split; auto. eauto.
+        + cbn [res_post_t].
+          assert (PP : match stopped with Some t => if g_handle_stop o then tend t else p1 | None => p1 end <= L
+                       /\ p1 <= match stopped with Some t => if g_handle_stop o then tend t else p1 | None => p1 end).
+          { destruct stopped as [t|]; [|lia]. destruct (g_handle_stop o); lia. }
+          split; [lia|]. split; [lia|]. eexists. split; [reflexivity|].
+          destruct W as (W1 & a' & b' & W2 & W3 & W4). split; [exact W1|]. exists a', b'. repeat split; auto; lia.
+      - destruct P as (A & B & items & PN & C & T). rewrite PN. unfold mk_nodelist.
+        destruct (nodelist_chain s pos p1 items C T B) as (a & b & M1 & M2 & Q1 & Q2 & Q3 & TN).
+        rewrite M1, M2. unfold gen_err. cbn [mkerr pe_at pe_past pe_nodes]. repeat split; auto.
+        eexists. split; [reflexivity|]. split; [exact TN|]. exists a, b. repeat split; auto.
+    Qed.
+
+    (** the body of a delimited construct, after [parse_content] *)
+    Lemma general_pc ps og lo : task_pre_t (TGeneral ps og lo) ->
+      match parse_content true (run s true cx f (TGeneral ps og lo)) with
+      | Ok o p => lo <= p /\ p <= L /\ exists n, o = ONode (Some n) /\ within lo p n
+      | PErr _ _ | REOS _ => False
+      | _ => True
+      end.
+    Proof.
+      intros PRE. pose proof (IH _ PRE) as P. cbn [post_t] in P. rewrite parse_content_tol.
+      destruct (run s true cx f (TGeneral ps og lo)) as [o1 p1|e p1|p1|k|]; cbn [res_post_t] in P; auto.
+      - destruct P as (A1 & A2 & A3 & A4 & n & PN & W). unfold rpos. rewrite A1, A2, PN. eauto.
+      - destruct P.
+    Qed.
+
+    Lemma delim_tol p0 p1 p n : p0 <= p1 -> p <= L -> within p1 p n ->
+      p0 <= p /\ p <= L /\ chain p0 p (body_items (Some n)) /\ body_in p0 p (Some n) /\ tol_node s n.
+    Proof.
+      intros H1 H2 W. destruct (body_chain _ _ _ W) as [BC BI]. pose proof (chain_le _ _ _ BC).
+      split; [lia|]. split; [exact H2|]. split; [eapply chain_weaken; eauto|]. split; [|apply W].
+      cbn [body_in] in *. destruct (nspan n) as [[a b]|]; auto. lia.
+    Qed.
+
+    Lemma group_step_t ps d optional aps pos : task_pre_t (TGroup ps d optional aps pos) ->
+      post_t (TGroup ps d optional aps pos) (run s true cx (S f) (TGroup ps d optional aps pos)).
+    Proof.
+      intros (PL & G). cbn [task_pos] in PL. cbn [post_t run].
+      change (match d with GDPair o c => ps_add_group ps o c | _ => ps end) with (group_gps ps d).
+      assert (GG : good (group_gps ps d)) by (destruct d; cbn; auto using good_add_group).
+      set (gps := group_gps ps d) in *. rewrite next_tok_tol.
+      pose proof (good_peek_tol s gps pos GG PL) as TF.
+      pose proof (good_peek_nonspace_tol s gps pos GG) as NS.
+      assert (TOK : forall t, tokfacts_t s pos t -> (nonspace_at s pos -> tpre t = []) ->
+        res_post_t pos
+          (fun o p => match o with
+                      | ONode None => True
+                      | ONode (Some n) => tol_node s n /\ exists a, nspan n = Some (a, p) /\ pos <= a /\
+                                                                    (aps = false -> a = pos)
+                      | _ => False end)
+          (errD pos) (fun p => p = pos)
+          (let opening_ok :=
+              tokkind_eqb (tk t) TkBraceOpen &&
+              match d with
+              | GDNone => true
+              | GDStr o => str_eqb (targ t) o
+              | GDPair o _ => str_eqb (targ t) o
+              end in
+           let ok := (aps || match tpre t with [] => true | _ => false end) && opening_ok in
+           if negb ok then
+             if optional then Ok (ONode None) (tpos t - length (tpre t))
+             else PErr (mkerr (Some (tpos t)) 7 (Some (NList (Some (tpos t)) (Some (tpos t)) [])) true (Some t) None)
+                       (tend t)
+           else
+           match match d with
+                 | GDPair o c => Some (o, c)
+                 | GDStr o => match group_close_of gps o with Some c => Some (o, c) | None => None end
+                 | GDNone => match group_close_of gps (targ t) with Some c => Some (targ t, c) | None => None end
+                 end with
+           | None => RExn 2
+           | Some (od, cd) =>
+               match parse_content true
+                       (run s true cx f
+                          (TGeneral gps {| g_stop := SBraceClose cd; g_nl := NLNone; g_require := true;
+                                           g_child := CPGroup gps ps od; g_incl_pre := true; g_handle_stop := true |}
+                                    (tend t))) with
+               | Ok (ONode body) p => Ok (ONode (Some (NGroup (tpos t) p (ps_mode gps) od cd body))) p
+               | Ok _ p => RExn 9
+               | PErr e p => PErr e p | REOS p => REOS p | RExn k => RExn k | OutOfFuel => OutOfFuel
+               end
+           end)).
+      { intros t [F1 F3 F4 _ _] NSP. cbn zeta.
+        assert (X : tpos t - length (tpre t) = pos) by lia.
+        match goal with |- context [if negb ?m then _ else _] => destruct m eqn:OK end; cbn [negb].
+        2: { destruct optional.
+             - cbn [res_post_t]. rewrite X. repeat split; auto; lia.
+             - cbn [res_post_t]. unfold errD, rpos. cbn [mkerr pe_at pe_nodes]. split; [exact X|].
+               exists t. repeat split; auto; lia. }
+        apply andb_true_iff in OK. destruct OK as [OK1 _].
+        assert (AP : aps = false -> tpos t = pos).
+        { intros ->. cbn [orb] in OK1. destruct (tpre t); [cbn [length] in F1; lia|discriminate]. }
+        match goal with |- context [match ?m with Some _ => _ | None => RExn 2 end] => destruct m as [[od cd]|] end;
+          [|exact I].
+        match goal with |- context [TGeneral gps ?o _] => set (og := o) end.
+        assert (PRE : task_pre_t (TGeneral gps og (tend t))).
+        { split; cbn [task_pos]; [exact F4|]. split; [exact GG|]. unfold good_opts, og. cbn. auto. }
+        pose proof (general_pc gps og (tend t) PRE) as P.
+        destruct (parse_content true (run s true cx f (TGeneral gps og (tend t)))) as [o1 p1|e p1|p1|k|];
+          try contradiction; try exact I.
+        destruct P as (A & B & n & -> & W). cbn [res_post_t]. split; [lia|]. split; [exact B|]. split.
+        - rewrite tn_group. apply (delim_tol (tpos t) (tend t) p1 n); auto; lia.
+        - exists (tpos t). split; [reflexivity|]. split; [lia|exact AP]. }
+      destruct (impl_peek gps s pos) as [t|fin|e]; [apply TOK; auto| |apply TOK; auto].
+      cbn [res_post_t]. reflexivity.
+    Qed.
+
+    Lemma math_step_t ps d pos : task_pre_t (TMath ps d pos) ->
+      post_t (TMath ps d pos) (run s true cx (S f) (TMath ps d pos)).
+    Proof.
+      intros (PL & G). cbn [task_pos] in PL. cbn [post_t run]. rewrite next_tok_tol.
+      pose proof (good_peek_tol s ps pos G PL) as TF.
+      pose proof (good_peek_nonspace_tol s ps pos G) as NS.
+      assert (TOK : forall t, tokfacts_t s pos t -> (nonspace_at s pos -> tpre t = []) ->
+        res_post_t pos
+          (fun o p => match o with
+                      | ONode (Some n) => tol_node s n /\ nspan n = Some (pos, p)
+                      | _ => False end)
+          (errD pos) (fun p => p = pos)
+          (let ok := (match tpre t with [] => true | _ => false end) && mode_of_tok t && str_eqb (targ t) d in
+           if negb ok then
+             PErr (mkerr (Some (tpos t)) 8 (Some (NList (Some (tpos t)) (Some (tpos t)) [])) true (Some t) None) (tend t)
+           else
+           let mps := ps_enter_math ps (Some (targ t)) in
+           match c_expect_close (ps_c mps) with
+           | None => RExn 3
+           | Some (cd, _) =>
+               match parse_content true
+                       (run s true cx f
+                          (TGeneral mps {| g_stop := SMathClose (tk t) cd; g_nl := NLNone; g_require := true;
+                                           g_child := CPSelf; g_incl_pre := true; g_handle_stop := true |}
+                                    (tend t))) with
+               | Ok (ONode body) p =>
+                   Ok (ONode (Some (NMath (tpos t) p (ps_mode ps) (tokkind_eqb (tk t) TkMathDisplay)
+                                          (targ t) cd body))) p
+               | Ok _ p => RExn 9
+               | PErr e p => PErr e p | REOS p => REOS p | RExn k => RExn k | OutOfFuel => OutOfFuel
+               end
+           end)).
+      { intros t [F1 F3 F4 _ _] NSP. cbn zeta.
+        assert (X : tpos t - length (tpre t) = pos) by lia.
+        match goal with |- context [if negb ?m then _ else _] => destruct m eqn:OK end; cbn [negb].
+        2: { cbn [res_post_t]. unfold errD, rpos. cbn [mkerr pe_at pe_nodes]. split; [exact X|].
+             exists t. repeat split; auto; lia. }
+        apply andb_true_iff in OK. destruct OK as [OK1 _]. apply andb_true_iff in OK1. destruct OK1 as [OK1 _].
+        assert (TP : tpos t = pos) by (destruct (tpre t); [cbn [length] in F1; lia|discriminate]).
+        set (mps := ps_enter_math ps (Some (targ t))).
+        assert (GM : good mps) by (apply good_enter_math; exact G).
+        destruct (c_expect_close (ps_c mps)) as [[cd k]|]; [|exact I].
+        match goal with |- context [TGeneral mps ?o _] => set (og := o) end.
+        assert (PRE : task_pre_t (TGeneral mps og (tend t))).
+        { split; cbn [task_pos]; [exact F4|]. split; [exact GM|]. unfold good_opts, og. cbn. auto. }
+        pose proof (general_pc mps og (tend t) PRE) as P.
+        destruct (parse_content true (run s true cx f (TGeneral mps og (tend t)))) as [o1 p1|e p1|p1|k1|];
+          try contradiction; try exact I.
+        destruct P as (A & B & n & -> & W). cbn [res_post_t]. split; [lia|]. split; [exact B|]. split.
+        - rewrite tn_math. apply (delim_tol (tpos t) (tend t) p1 n); auto; lia.
+        - rewrite <- TP. reflexivity. }
+      destruct (impl_peek ps s pos) as [t|fin|e]; [apply TOK; auto| |apply TOK; auto].
+      cbn [res_post_t]. reflexivity.
+    Qed.
+
+    Lemma envbody_step_t ps name pos : task_pre_t (TEnvBody ps name pos) ->
+      post_t (TEnvBody ps name pos) (run s true cx (S f) (TEnvBody ps name pos)).
+    Proof.
+      intros (PL & G). cbn [task_pos] in PL. cbn [post_t run].
+      match goal with |- context [TGeneral ps ?o _] => set (og := o) end.
+      assert (PRE : task_pre_t (TGeneral ps og pos)).
+      { split; cbn [task_pos]; [exact PL|]. split; [exact G|]. unfold good_opts, og. cbn. auto. }
+      pose proof (general_pc ps og pos PRE) as P.
+      destruct (parse_content true (run s true cx f (TGeneral ps og pos))) as [o1 p1|e p1|p1|k1|];
+        try contradiction; try exact I.
+      destruct P as (A & B & n & -> & W). cbn [res_post_t]. split; [lia|]. split; [exact B|].
+      exists n. split; [reflexivity|]. destruct (body_chain _ _ _ W). split; [apply W|]. auto.
+    Qed.
+
+    Lemma e_finish_t ps acc more p lo : tol_items s acc -> tol_items s more -> lo <= p -> p <= L ->
+      res_post_t lo onode_t (errG lo) (in_range s lo) (e_finish ps false acc more p).
+    Proof.
+      intros TA TM H1 H2. unfold e_finish. cbn zeta.
+      destruct (rev (acc ++ more)) as [|last r] eqn:R.
+      - apply (f_equal (@rev _)) in R. rewrite rev_involutive in R. cbn [rev] in R. rewrite R.
+        unfold mk_nodelist. cbn [res_post_t]. split; [exact H1|]. split; [exact H2|].
+        eexists. split; [reflexivity|]. cbn [tol_onode]. rewrite tn_group.
+        cbn [body_items body_in chain nspan node_pos node_end]. rewrite tn_list. cbn [chain tol_items].
+        repeat split; auto; lia.
+      - cbn [res_post_t]. split; [exact H1|]. split; [exact H2|]. exists last. split; [reflexivity|].
+        apply (tol_items_in s (acc ++ more)); [apply tol_items_app; auto|].
+        apply in_rev. rewrite R. left. reflexivity.
+    Qed.
+
+    Lemma expr_step_t ps aps apc full sterr acc pos : task_pre_t (TExpr ps aps apc full sterr acc pos) ->
+      post_t (TExpr ps aps apc full sterr acc pos) (run s true cx (S f) (TExpr ps aps apc full sterr acc pos)).
+    Proof.
+      intros (PL & G). cbn [task_pos] in PL. cbn [post_t]. intros -> TA. rewrite run_expr.
+      unfold expr_step. cbn zeta.
+      set (eps := sub_context ps [UEnEnvs false]).
+      assert (GE : good eps) by (apply good_noenvs; exact G).
+      rewrite next_tok_tol. pose proof (good_peek_tol s eps pos GE PL) as TF. unfold e_strict_err.
+      assert (REC : forall acc' p', tol_items s acc' -> pos <= p' -> p' <= L ->
+                    res_post_t pos onode_t (errG pos) (in_range s pos)
+                               (run s true cx f (TExpr ps aps apc false sterr acc' p'))).
+      { intros acc' p' TA' H1 H2.
+        assert (PRE : task_pre_t (TExpr ps aps apc false sterr acc' p')) by (split; cbn; auto).
+        pose proof (IH _ PRE eq_refl TA') as P.
+        eapply res_post_t_mono; [exact P|exact H1|auto| |].
+        - intros e p E. eapply errG_weaken; eauto.
+        - unfold in_range. intros p. lia. }
+      assert (TOK : forall t, tokfacts_t s pos t ->
+        res_post_t pos onode_t (errG pos) (in_range s pos)
+          match tk t with
+          | TkMacro =>
+              if sterr && (str_eqb (targ t) kw_begin || str_eqb (targ t) kw_end) then
+                e_finish ps false acc [Some (NMacro (tpos t) (tend t) (ps_mode ps) (targ t) (tpost t) None)] (tend t)
+              else
+              match get_macro_spec cx (targ t) with
+              | None =>
+                  e_finish ps false acc [Some (NMacro (tpos t) (tend t) (ps_mode ps) (targ t) (tpost t) None)] (tend t)
+              | Some sp =>
+                  e_finish ps false acc
+                    [Some (NMacro (tpos t) (tend t) (ps_mode ps) (targ t) (tpost t) (Some ([], [])))] (tend t)
+              end
+          | TkSpecials =>
+              e_finish ps false acc [Some (NSpecials (tpos t) (tend t) (ps_mode ps) (targ t) (Some ([], [])))] (tend t)
+          | _ =>
+            match tpre t with
+            | _ :: _ =>
+                if aps then
+                  run s true cx f (TExpr ps aps apc false sterr
+                             (acc ++ [Some (mk_chars ps (tpos t - length (tpre t)) (tpos t) (tpre t))]) (tpos t))
+                else run s true cx f (TExpr ps aps apc false sterr acc (tend t))
+            | [] =>
+              match tk t with
+              | TkComment =>
+                  if apc then
+                    run s true cx f (TExpr ps aps apc false sterr
+                               (acc ++ [Some (NComment (tpos t) (tend t) (ps_mode ps) (targ t) (tpost t))]) (tend t))
+                  else run s true cx f (TExpr ps aps apc false sterr acc (tend t))
+              | TkBraceOpen =>
+                  match parse_content true (run s true cx f (TGroup ps (GDStr (targ t)) false false (tpos t))) with
+                  | Ok (ONode n) p => e_finish ps false acc [n] p
+                  | Ok _ p => RExn 9
+                  | PErr e p => PErr e p | REOS p => REOS p | RExn k => RExn k | OutOfFuel => OutOfFuel
+                  end
+              | TkBraceClose =>
+                  PErr (mkerr (Some (tpos t)) 14 (Some (mk_chars ps (tpos t) (tpos t) [])) true (Some t) None) (tpos t)
+              | TkChar => e_finish ps false acc [Some (mk_chars ps (tpos t) (tend t) (targ t))] (tend t)
+              | TkMathInline | TkMathDisplay =>
+                  PErr (mkerr (Some (tpos t)) 15
+                              (Some match targ t with
+                                    | 92%N :: _ => NMacro (tpos t) (tend t) (ps_mode ps) (targ t) (tpost t) (Some ([], []))
+                                    | _ => mk_chars ps (tpos t) (tend t) (targ t)
+                                    end) true None (Some t)) (tend t)
+              | _ => PErr (mkerr (Some (tpos t)) 16 None false None None) (tend t)
+              end
+            end
+          end).
+      { intros t [F1 F3 F4 _ _].
+        assert (MAC : forall a, (match a with None => True | Some (_, l) => tol_items s l end) ->
+                      res_post_t pos onode_t (errG pos) (in_range s pos)
+                        (e_finish ps false acc [Some (NMacro (tpos t) (tend t) (ps_mode ps) (targ t) (tpost t) a)] (tend t))).
+        { intros a HA. apply e_finish_t; auto; try lia. cbn [tol_items]. split; [|exact I].
+          rewrite tn_macro. repeat split; auto; lia. }
+        assert (OTHER :
+          res_post_t pos onode_t (errG pos) (in_range s pos)
+            match tpre t with
+            | _ :: _ =>
+                if aps then
+                  run s true cx f (TExpr ps aps apc false sterr
+                             (acc ++ [Some (mk_chars ps (tpos t - length (tpre t)) (tpos t) (tpre t))]) (tpos t))
+                else run s true cx f (TExpr ps aps apc false sterr acc (tend t))
+            | [] =>
+              match tk t with
+              | TkComment =>
+                  if apc then
+                    run s true cx f (TExpr ps aps apc false sterr
+                               (acc ++ [Some (NComment (tpos t) (tend t) (ps_mode ps) (targ t) (tpost t))]) (tend t))
+                  else run s true cx f (TExpr ps aps apc false sterr acc (tend t))
+              | TkBraceOpen =>
+                  match parse_content true (run s true cx f (TGroup ps (GDStr (targ t)) false false (tpos t))) with
+                  | Ok (ONode n) p => e_finish ps false acc [n] p
+                  | Ok _ p => RExn 9
+                  | PErr e p => PErr e p | REOS p => REOS p | RExn k => RExn k | OutOfFuel => OutOfFuel
+                  end
+              | TkBraceClose =>
+                  PErr (mkerr (Some (tpos t)) 14 (Some (mk_chars ps (tpos t) (tpos t) [])) true (Some t) None) (tpos t)
+              | TkChar => e_finish ps false acc [Some (mk_chars ps (tpos t) (tend t) (targ t))] (tend t)
+              | TkMathInline | TkMathDisplay =>
+                  PErr (mkerr (Some (tpos t)) 15
+                              (Some match targ t with
+                                    | 92%N :: _ => NMacro (tpos t) (tend t) (ps_mode ps) (targ t) (tpost t) (Some ([], []))
+                                    | _ => mk_chars ps (tpos t) (tend t) (targ t)
+                                    end) true None (Some t)) (tend t)
+              | _ => PErr (mkerr (Some (tpos t)) 16 None false None None) (tend t)
+              end
+            end).
+        { assert (E16 : res_post_t pos onode_t (errG pos) (in_range s pos)
+                          (PErr (mkerr (Some (tpos t)) 16 None false None None) (tend t))).
+          { cbn [res_post_t]. unfold errG, rpos. cbn [mkerr pe_at pe_past pe_nodes owithin]. repeat split; auto; lia. }
+          assert (E15 : res_post_t pos onode_t (errG pos) (in_range s pos)
+                          (PErr (mkerr (Some (tpos t)) 15
+                              (Some match targ t with
+                                    | 92%N :: _ => NMacro (tpos t) (tend t) (ps_mode ps) (targ t) (tpost t) (Some ([], []))
+                                    | _ => mk_chars ps (tpos t) (tend t) (targ t)
+                                    end) true None (Some t)) (tend t))).
+          { cbn [res_post_t]. unfold errG, rpos. cbn [mkerr pe_at pe_past pe_nodes owithin].
+            split; [lia|]. split; [exact F4|].
+            apply (match92 (fun n => within pos (tend t) n)).
+            - split; [rewrite tn_macro; cbn [tol_items]; repeat split; auto; lia|].
+              exists (tpos t), (tend t). repeat split; auto; lia.
+            - split; [cbn [mk_chars tol_node]; lia|]. exists (tpos t), (tend t). repeat split; auto; lia. }
+          destruct (tpre t) as [|c r] eqn:EP.
+          - cbn [length] in F1. destruct (tk t) eqn:K; try exact E16; try exact E15.
+            + apply e_finish_t; auto; try lia. cbn [tol_items mk_chars tol_node]. repeat split; auto; lia.
+            + destruct apc; apply REC; auto; try lia. apply tol_items_snoc; [exact TA|]. cbn [tol_onode tol_node]. lia.
+            + assert (PRE : task_pre_t (TGroup ps (GDStr (targ t)) false false (tpos t))) by (split; cbn; auto; lia).
+              pose proof (IH _ PRE) as P. cbn [post_t] in P. rewrite parse_content_tol.
+              destruct (run s true cx f (TGroup ps (GDStr (targ t)) false false (tpos t))) as [o1 p1|e p1|p1|k1|];
+                cbn [res_post_t] in P |- *; auto.
+              * destruct P as (A & B & C). destruct o1 as [n| |]; try exact I.
+                apply e_finish_t; auto; try lia. destruct n as [n|]; cbn [tol_items]; [|exact I].
+                split; [apply C|exact I].
+              * destruct P as (RP & t' & T1 & T2 & PN & _). rewrite PN, RP.
+                apply e_finish_t; auto; try lia. cbn [tol_items]. split; [|exact I].
+                rewrite tn_list. cbn [chain tol_items]. repeat split; lia.
+              * subst p1. apply e_finish_t; auto; try lia. cbn [tol_items]. exact I.
+            + cbn [res_post_t]. unfold errG, rpos. cbn [mkerr pe_at pe_past pe_nodes owithin]. rewrite EP.
+              cbn [length]. rewrite Nat.sub_0_r. split; [lia|]. split; [lia|].
+              split; [cbn [mk_chars tol_node]; lia|]. exists (tpos t), (tpos t). repeat split; auto; lia.
+          - destruct aps; apply REC; auto; try lia. apply tol_items_snoc; [exact TA|].
+            cbn [tol_onode mk_chars tol_node]. lia. }
+        destruct (tk t) eqn:K; try exact OTHER.
+        - destruct (sterr && _); [apply MAC; exact I|].
+          destruct (get_macro_spec cx (targ t)); apply MAC; cbn [tol_items]; exact I.
+        - apply e_finish_t; auto; try lia. cbn [tol_items]. split; [|exact I].
+          rewrite tn_specials. cbn [tol_items]. repeat split; auto; lia. }
+      destruct (impl_peek eps s pos) as [t|fin|e]; [apply TOK; exact TF| |apply TOK; exact TF].
+      apply e_finish_t; auto. cbn [tol_items]. exact I.
+    Qed.
+
+    Lemma chars_step_t ps ch aps full pos : task_pre_t (TChars ps ch aps full pos) ->
+      post_t (TChars ps ch aps full pos) (run s true cx (S f) (TChars ps ch aps full pos)).
+    Proof.
+      intros (PL & G). cbn [task_pos] in PL. cbn [post_t run]. rewrite peek_tok_tol.
+      pose proof (good_peek_tol s ps pos G PL) as TF.
+      assert (TOK : forall t, tokfacts_t s pos t ->
+        res_post_t pos onode_t errF (in_range s pos)
+          (let back := tpos t - length (tpre t) in
+           if (match tpre t with [] => false | _ => true end) && negb aps then Ok (ONode None) back
+           else
+           match match tk t with
+                 | TkChar => Some (targ t)
+                 | TkSpecials => Some (targ t)
+                 | _ => None end with
+           | Some [] => REOS back
+           | Some a =>
+               if str_eqb a ch then
+                 Ok (ONode (Some (if full then mk_nodelist None None [Some (mk_chars ps (tpos t) (tend t) ch)]
+                                  else mk_chars ps (tpos t) (tend t) ch))) (tend t)
+               else Ok (ONode None) back
+           | None => Ok (ONode None) back
+           end)).
+      { intros t [F1 F3 F4 _ _]. cbn zeta.
+        assert (BK : tpos t - length (tpre t) = pos) by lia. rewrite BK.
+        assert (NONE : res_post_t pos onode_t errF (in_range s pos) (Ok (ONode None) pos)).
+        { cbn [res_post_t]. split; [lia|]. split; [lia|]. exists None. split; [reflexivity|exact I]. }
+        destruct (_ && negb aps); [exact NONE|].
+        assert (SOME :
+          res_post_t pos onode_t errF (in_range s pos)
+            match targ t with
+            | [] => REOS pos
+            | _ :: _ =>
+                if str_eqb (targ t) ch
+                then Ok (ONode (Some (if full then mk_nodelist None None [Some (mk_chars ps (tpos t) (tend t) ch)]
+                                      else mk_chars ps (tpos t) (tend t) ch))) (tend t)
+                else Ok (ONode None) pos
+            end).
+        { destruct (targ t) as [|a0 ar] eqn:TA.
+          - cbn [res_post_t]. unfold in_range. lia.
+          - destruct (str_eqb (a0 :: ar) ch); [|exact NONE].
+            cbn [res_post_t]. split; [lia|]. split; [exact F4|]. eexists. split; [reflexivity|].
+            cbn [tol_onode]. destruct full.
+            + unfold mk_nodelist, mk_chars. cbn [first_pos last_end rev app first_end node_pos node_end].
+              rewrite tn_list. cbn [chain tol_items tol_node nspan node_pos node_end]. repeat split; auto; lia.
+            + cbn [mk_chars tol_node]. lia. }
+        destruct (tk t); try exact NONE; exact SOME. }
+      destruct (impl_peek ps s pos) as [t|fin|e]; [apply TOK; exact TF| |apply TOK; exact TF].
+      cbn [res_post_t]. unfold in_range. lia.
+    Qed.
+
+    Lemma verb_step_t ps d pos : task_pre_t (TVerbDelim ps d pos) ->
+      post_t (TVerbDelim ps d pos) (run s true cx (S f) (TVerbDelim ps d pos)).
+    Proof.
+      intros (PL & _). cbn [task_pos] in PL. cbn [post_t]. rewrite run_verb. unfold verb_step. cbn zeta.
+      destruct (peek_space_spec s pos PL) as (A & _ & C). cbn zeta in A, C.
+      set (p0 := snd (peek_space s pos)) in *.
+      destruct (nth_error s p0) as [c0|] eqn:N0.
+      2: { cbn [res_post_t]. unfold in_range. lia. }
+      assert (P0 : p0 < L) by (apply nth_error_Some; congruence).
+      destruct (verb_delims d c0) as [[od cd]|] eqn:VD.
+      2: { cbn [res_post_t]. unfold errG, rpos. cbn [mkerr pe_at pe_past pe_nodes owithin]. repeat split; auto; lia. }
+      destruct (vscan od cd (skipn (S p0) s) 1 0) as [n|] eqn:SC.
+      2: { cbn [res_post_t]. unfold errG, rpos. cbn [mkerr pe_at pe_past pe_nodes owithin].
+           split; [lia|]. split; [lia|]. split; [cbn [mk_chars tol_node]; lia|].
+           exists (S p0), L. repeat split; auto; lia. }
+      apply vscan_spec in SC. destruct SC as (k & -> & NK). cbn [Nat.add] in *.
+      rewrite nth_error_skipn_add in NK.
+      assert (KL : S p0 + k < L) by (apply nth_error_Some; congruence).
+      cbn [res_post_t]. split; [lia|]. split; [lia|]. eexists. split; [reflexivity|]. cbn [tol_onode].
+      rewrite tn_group. unfold mk_nodelist, mk_chars.
+      cbn [first_pos last_end rev app first_end node_pos node_end body_items body_in chain nspan].
+      split; [lia|]. split; [lia|]. split; [lia|]. split; [lia|].
+      rewrite tn_list. cbn [chain tol_items tol_node nspan node_pos node_end]. repeat split; auto; lia.
+    Qed.
+
+    Lemma stdarg_step_t ps k pos : task_pre_t (TStdArg ps k pos) ->
+      post_t (TStdArg ps k pos) (run s true cx (S f) (TStdArg ps k pos)).
+    Proof.
+      intros (PL & G). cbn [task_pos] in PL. cbn [post_t run]. rewrite parse_content_tol.
+      assert (EG : forall e p, errG pos e p ->
+                 res_post_t pos onode_t errF never (Ok (ONode (pe_nodes e)) (rpos e p))).
+      { intros e p (A & B & C). cbn [res_post_t]. split; [exact A|]. split; [exact B|].
+        eexists. split; [reflexivity|]. destruct (pe_nodes e); cbn [owithin tol_onode] in *; [apply C|exact I]. }
+      assert (NN : forall p, in_range s pos p -> res_post_t pos onode_t errF never (Ok (ONode None) p)).
+      { intros p [A B]. cbn [res_post_t]. split; [exact A|]. split; [exact B|]. exists None. split; [reflexivity|exact I]. }
+      destruct k as [aps|o c opt aps|ch aps full|d].
+      - assert (PRE : task_pre_t (TExpr ps aps aps false true [] pos)) by (split; cbn; auto).
+        pose proof (IH _ PRE eq_refl I) as P.
+        destruct (run s true cx f (TExpr ps aps aps false true [] pos)); cbn [res_post_t] in P; auto.
+      - assert (PRE : task_pre_t (TGroup ps (GDPair o c) opt aps pos)) by (split; cbn; auto).
+        pose proof (IH _ PRE) as P. cbn [post_t] in P.
+        destruct (run s true cx f (TGroup ps (GDPair o c) opt aps pos)) as [o1 p1|e p1|p1|k1|];
+          cbn [res_post_t] in P |- *; auto.
+        + destruct P as (A & B & C). split; [exact A|]. split; [exact B|].
+          destruct o1 as [[n|]| |]; try contradiction; (eexists; split; [reflexivity|]); cbn [tol_onode]; [apply C|exact I].
+        + destruct P as (RP & t' & T1 & T2 & PN & _). rewrite PN, RP. split; [lia|]. split; [exact PL|].
+          eexists. split; [reflexivity|]. cbn [tol_onode]. rewrite tn_list. cbn [chain tol_items]. repeat split; lia.
+        + subst p1. apply NN. unfold in_range. lia.
+      - assert (PRE : task_pre_t (TChars ps ch aps full pos)) by (split; cbn; auto).
+        pose proof (IH _ PRE) as P. cbn [post_t] in P.
+        destruct (run s true cx f (TChars ps ch aps full pos)); cbn [res_post_t] in P; auto. destruct P.
+      - assert (PRE : task_pre_t (TVerbDelim ps d pos)) by (split; cbn; auto).
+        pose proof (IH _ PRE) as P. cbn [post_t] in P.
+        destruct (run s true cx f (TVerbDelim ps d pos)); cbn [res_post_t] in P; auto.
+    Qed.
+
+    Lemma args_step_t ps specs acc pos : task_pre_t (TArgs ps specs acc pos) ->
+      post_t (TArgs ps specs acc pos) (run s true cx (S f) (TArgs ps specs acc pos)).
+    Proof.
+      intros (PL & G). cbn [task_pos] in PL. cbn [post_t run]. intros W.
+      destruct specs as [|a rest].
+      - cbn [res_post_t]. split; [lia|]. split; [exact PL|]. exists acc. auto.
+      - rewrite peek_tok_tol.
+        assert (GO : res_post_t pos (fun o p => exists l, o = OArgs (Some ([], l)) /\ tol_items s l) errF never
+          match parse_content true (run s true cx f (TStdArg (apply_adelta ps (a_delta a)) (a_kind a) pos)) with
+          | Ok (ONode n) p => run s true cx f (TArgs ps rest (acc ++ [n]) p)
+          | Ok _ p => RExn 9
+          | PErr e p => PErr e p | REOS p => REOS p | RExn k => RExn k | OutOfFuel => OutOfFuel
+          end).
+        { assert (PRE : task_pre_t (TStdArg (apply_adelta ps (a_delta a)) (a_kind a) pos))
+            by (split; cbn; auto using good_adelta).
+          pose proof (IH _ PRE) as P. cbn [post_t] in P. rewrite parse_content_tol.
+          destruct (run s true cx f (TStdArg (apply_adelta ps (a_delta a)) (a_kind a) pos)) as [o1 p1|e p1|p1|k1|];
+            cbn [res_post_t] in P |- *; auto; try (destruct P; fail).
+          destruct P as (A & B & n & -> & TN).
+          assert (PRE2 : task_pre_t (TArgs ps rest (acc ++ [n]) p1)) by (split; cbn; auto).
+          pose proof (IH _ PRE2) as P2. cbn [post_t] in P2.
+          eapply res_post_t_weaken; [apply P2|exact A|auto].
+          apply tol_items_snoc; assumption. }
+        destruct (impl_peek ps s pos); exact GO.
+    Qed.
+
+    Definition legacy_okT (o : out) (p : nat) : Prop :=
+      exists sp l, o = OArgs (Some (sp, l)) /\ tol_items s l.
+
+    Lemma legacy_tail_t ps pos endcode sp al p : pos <= p -> p <= L -> tol_items s al ->
+      res_post_t pos legacy_okT (errG pos) never
+        match sfind s endcode p with
+        | None => PErr (mkerr (Some p) 21 None false None None) pos
+        | Some e => Ok (OArgs (Some (sp ++ [[123%N]], al ++ [Some (mk_chars ps p e (slice s p e))]))) e
+        end.
+    Proof.
+      intros H1 H2 W. unfold sfind. destruct (find_from s endcode p) as [e|] eqn:F.
+      - apply find_from_bound in F. destruct F as [F1 F2].
+        cbn [res_post_t]. split; [lia|]. split; [lia|]. eexists _, _. split; [reflexivity|].
+        apply tol_items_snoc; [exact W|]. cbn [tol_onode mk_chars tol_node]. lia.
+      - cbn [res_post_t]. unfold errG, rpos. cbn [mkerr pe_at pe_past pe_nodes owithin]. repeat split; auto; lia.
+    Qed.
+
+    Lemma legacy_step_t ps k pos : task_pre_t (TLegacyArgs ps k pos) ->
+      post_t (TLegacyArgs ps k pos) (run s true cx (S f) (TLegacyArgs ps k pos)).
+    Proof.
+      intros (PL & G). cbn [task_pos] in PL. cbn [post_t run]. fold legacy_okT.
+      assert (ERR : forall q w, res_post_t pos legacy_okT (errG pos) never
+                                 (PErr (mkerr (Some q) w None false None None) pos)).
+      { intros q w. cbn [res_post_t]. unfold errG, rpos. cbn [mkerr pe_at pe_past pe_nodes owithin]. repeat split; auto; lia. }
+      destruct k as [|name optarg].
+      - destruct (peek_space_spec s pos PL) as (A & _ & C). cbn zeta in A, C.
+        set (p1 := snd (peek_space s pos)) in *.
+        destruct (nth_error s p1) as [dc|]; [|apply ERR].
+        unfold sfind. destruct (find_from s [dc] (S p1)) as [e|] eqn:F; [|apply ERR].
+        apply find_from_bound in F. cbn [length] in F. destruct F as [F1 F2].
+        cbn [res_post_t]. split; [lia|]. split; [lia|]. eexists _, _. split; [reflexivity|].
+        cbn [tol_items mk_chars tol_node]. repeat split; auto; lia.
+      - set (endcode := ([92; 101; 110; 100; 123]%N ++ name ++ [125%N])).
+        assert (GRP : res_post_t pos legacy_okT (errG pos) never
+          match
+            match parse_content true (run s true cx f (TGroup ps (GDPair [91%N] [93%N]) true false pos)) with
+            | Ok (ONode n) p => Ok ([[91%N]], [n], p) p
+            | Ok _ p => RExn 9
+            | PErr e p => PErr e p | REOS p => REOS p | RExn k2 => RExn k2
+            | OutOfFuel => OutOfFuel end
+          with
+          | Ok (sp, al, p) _ =>
+              match sfind s endcode p with
+              | None => PErr (mkerr (Some p) 21 None false None None) pos
+              | Some e => Ok (OArgs (Some (sp ++ [[123%N]], al ++ [Some (mk_chars ps p e (slice s p e))]))) e
+              end
+          | PErr e p => PErr e p | REOS p => REOS p | RExn k2 => RExn k2 | OutOfFuel => OutOfFuel
+          end).
+        { assert (PRE : task_pre_t (TGroup ps (GDPair [91%N] [93%N]) true false pos)) by (split; cbn; auto).
+          pose proof (IH _ PRE) as P. cbn [post_t] in P. rewrite parse_content_tol.
+          destruct (run s true cx f (TGroup ps (GDPair [91%N] [93%N]) true false pos)) as [o1 p1|e p1|p1|k1|];
+            cbn [res_post_t] in P |- *; auto.
+          - destruct P as (A & B & C). destruct o1 as [n| |]; try exact I.
+            apply legacy_tail_t; auto. destruct n as [n|]; cbn [tol_items]; [|exact I]. split; [apply C|exact I].
+          - destruct P as (RP & t' & T1 & T2 & PN & _). rewrite PN, RP.
+            apply legacy_tail_t; auto. cbn [tol_items]. split; [|exact I].
+            rewrite tn_list. cbn [chain tol_items]. repeat split; lia.
+          - subst p1. apply legacy_tail_t; cbn [tol_items]; auto. }
+        destruct optarg.
+        + destruct (nth_error s pos) as [c|]; [|exact GRP].
+          destruct (is_space c); [|exact GRP].
+          apply legacy_tail_t; cbn [tol_items]; auto.
+        + apply legacy_tail_t; cbn [tol_items]; auto.
+    Qed.
+
+    Lemma call_tail_t ps t sp pos (a : option pargs) p : good ps -> tpos t <= pos -> pos <= p -> p <= L ->
+      match a with None => True | Some (_, l) => tol_items s l end ->
+      res_post_t pos (fun o p => match o with
+                                 | ONode (Some n) => tol_node s n /\ nspan n = Some (tpos t, p)
+                                 | _ => False end) errF never
+        match tk t with
+        | TkBeginEnv =>
+            match parse_content true
+                    (run s true cx f (TEnvBody (if sp_body_math sp then ps_enter_math ps None else ps) (targ t) p)) with
+            | Ok (ONode body) p2 => Ok (ONode (Some (NEnv (tpos t) p2 (ps_mode ps) (targ t) a body))) p2
+            | Ok _ p2 => RExn 9
+            | PErr e p2 => PErr e p2 | REOS p2 => REOS p2 | RExn k => RExn k | OutOfFuel => OutOfFuel
+            end
+        | TkSpecials => Ok (ONode (Some (NSpecials (tpos t) p (ps_mode ps) (targ t) a))) p
+        | _ => Ok (ONode (Some (NMacro (tpos t) p (ps_mode ps) (targ t) (tpost t) a))) p
+        end.
+    Proof.
+      intros G TP H1 H2 W.
+      assert (MAC : res_post_t pos (fun o p => match o with
+                               | ONode (Some n) => tol_node s n /\ nspan n = Some (tpos t, p)
+                               | _ => False end) errF never
+                 (Ok (ONode (Some (NMacro (tpos t) p (ps_mode ps) (targ t) (tpost t) a))) p)).
+      { cbn [res_post_t]. split; [lia|]. split; [lia|]. split; [|reflexivity].
+        rewrite tn_macro. repeat split; auto; lia. }
+      destruct (tk t); try exact MAC.
+      set (bps := if sp_body_math sp then ps_enter_math ps None else ps).
+      assert (GB : good bps) by (unfold bps; destruct (sp_body_math sp); auto using good_enter_math).
+      assert (PRE : task_pre_t (TEnvBody bps (targ t) p)) by (split; cbn; auto).
+      pose proof (IH _ PRE) as P. cbn [post_t] in P. rewrite parse_content_tol.
+      destruct (run s true cx f (TEnvBody bps (targ t) p)) as [o1 p1|e p1|p1|k1|];
+        cbn [res_post_t] in P |- *; auto; try (destruct P; fail).
+      destruct P as (A & B & n & -> & TN & CH & BI).
+      split; [lia|]. split; [lia|]. split; [|reflexivity].
+      rewrite tn_env. split; [lia|]. split; [lia|]. split; [|split; [|split; [exact W|exact TN]]].
+      - eapply chain_weaken; [exact CH|lia|lia].
+      - cbn [body_in] in *. destruct (nspan n) as [[x y]|]; auto. lia.
+    Qed.
+
+    Lemma call_step_t ps t sp pos : task_pre_t (TCall ps t sp pos) ->
+      post_t (TCall ps t sp pos) (run s true cx (S f) (TCall ps t sp pos)).
+    Proof.
+      intros (PL & G). cbn [task_pos] in PL. cbn [post_t run]. intros TP.
+      destruct (sp_args sp) as [l0|k] eqn:SA; unfold parse_content_args; rewrite !parse_content_tol.
+      - assert (PRE : task_pre_t (TArgs ps l0 [] pos)) by (split; cbn; auto).
+        pose proof (IH _ PRE I) as P. cbn [post_t] in P.
+        destruct (run s true cx f (TArgs ps l0 [] pos)) as [o1 p1|e p1|p1|k1|];
+          cbn [res_post_t] in P |- *; auto; try (destruct P; fail).
+        destruct P as (A & B & l & -> & W).
+        apply call_tail_t; auto.
+      - assert (PRE : task_pre_t (TLegacyArgs ps k pos)) by (split; cbn; auto).
+        pose proof (IH _ PRE) as P. cbn [post_t] in P.
+        destruct (run s true cx f (TLegacyArgs ps k pos)) as [o1 p1|e p1|p1|k1|];
+          cbn [res_post_t] in P |- *; auto; try (destruct P; fail).
+        + destruct P as (A & B & spx & l & -> & W). apply call_tail_t; auto.
+        + destruct P as (A & B & C). destruct (pe_nodes e); apply call_tail_t; auto.
+    Qed.
+  End WithFuelT.
+
+  (** * Every task, every fuel *)
+  Theorem run_post_t : forall fuel t, task_pre_t t -> post_t t (run s true cx fuel t).
+  Proof.
+    induction fuel as [|f IH]; intros t PRE.
+    - cbn [run]. destruct t; cbn [post_t]; intros; exact I.
+    - destruct t.
+      + rewrite run_collect. apply collect_ok_t; assumption.
+      + apply general_step_t; assumption.
+      + apply group_step_t; assumption.
+      + apply math_step_t; assumption.
+      + apply envbody_step_t; assumption.
+      + apply expr_step_t; assumption.
+      + apply chars_step_t; assumption.
+      + apply verb_step_t; assumption.
+      + apply stdarg_step_t; assumption.
+      + apply args_step_t; assumption.
+      + apply legacy_step_t; assumption.
+      + apply call_step_t; assumption.
+  Qed.
+
+  (** whatever the tolerant top-level parse returns, for every fuel *)
+  Theorem top_tolerant fuel o p :
+    parse_content true (run s true cx fuel (TGeneral (walker_state cx) top_opts 0)) = Ok o p ->
+    p <= L /\ exists n, o = ONode (Some n) /\ tol_node s n /\
+                        exists a b, nspan n = Some (a, b) /\ b <= p.
+  Proof.
+    assert (PRE : task_pre_t (TGeneral (walker_state cx) top_opts 0)).
+    { split; cbn [task_pos]; [lia|]. split; [apply good_walker | exact I]. }
+    pose proof (run_post_t fuel _ PRE) as P. cbn [post_t] in P. rewrite parse_content_tol.
+    destruct (run s true cx fuel (TGeneral (walker_state cx) top_opts 0)) as [o1 p1|e p1|p1|k1|];
+      cbn [res_post_t] in P; try discriminate; try (destruct P; fail).
+    - destruct P as (A & B & n & -> & T & a & b & SP & X & Y).
+      intros E. injection E as <- <-. split; [exact B|]. exists n. repeat split; auto. eauto.
+    - destruct P as (A1 & A2 & A3 & A4 & n & PN & T & a & b & SP & X & Y).
+      unfold rpos. rewrite A1, A2, PN. intros E. injection E as <- <-. split; [exact A4|]. exists n.
+      repeat split; auto. eauto.
+  Qed.
 End Tolerant.
+
+(** * Every node of a tolerant tree *)
+Lemma tol_kids s n k : tol_node s n -> In (Some k) (kids n) -> tol_node s k.
+Proof.
+  assert (AI : forall l, tol_items s l -> In (Some k) l -> tol_node s k).
+  { intros l T I. apply (tol_items_in s l (Some k) T I). }
+  destruct n; cbn [kids In].
+  - tauto.
+  - tauto.
+  - rewrite tn_group. intros (_ & _ & _ & _ & H) [E|[]]. subst body. exact H.
+  - rewrite tn_macro. intros (_ & _ & H). destruct args as [[sp l]|]; cbn [arg_items]; [|intros []]. apply AI; exact H.
+  - rewrite tn_env. intros (_ & _ & _ & _ & H1 & H2) I. apply in_app_or in I. destruct I as [I|[E|[]]].
+    + destruct args as [[sp l]|]; cbn [arg_items] in I; [|destruct I]. eapply AI; eauto.
+    + subst body. exact H2.
+  - rewrite tn_specials. intros (_ & _ & H). destruct args as [[sp l]|]; cbn [arg_items]; [|intros []]. apply AI; exact H.
+  - rewrite tn_math. intros (_ & _ & _ & _ & H) [E|[]]. subst body. exact H.
+  - rewrite tn_list. intros [_ H]. apply AI; exact H.
+Qed.
+
+Theorem tol_in_tree s m n : in_tree m n -> tol_node s n -> tol_node s m.
+Proof.
+  induction 1 as [n|m k n I _ IH]; intros W; [exact W|]. apply IH. eapply tol_kids; eauto.
+Qed.
+
+Theorem parse_top_tolerant s cx o p :
+  parse_top s true cx (walker_state cx) = Ok o p ->
+  p <= length s /\ exists n, o = ONode (Some n) /\ tol_node s n.
+Proof.
+  intros H. unfold parse_top in H. apply top_tolerant in H. destruct H as (A & n & B & C & _). eauto.
+Qed.
+
+(** in particular every node of the tree, of whatever kind, is in range *)
+Theorem parse_top_tolerant_in_range s cx n p :
+  parse_top s true cx (walker_state cx) = Ok (ONode (Some n)) p ->
+  forall m a b, in_tree m n -> nspan m = Some (a, b) -> a <= b /\ b <= length s.
+Proof.
+  intros H m a b I SP. apply parse_top_tolerant in H. destruct H as (_ & n' & E & T).
+  injection E as <-. eapply tol_span_le; [|exact SP]. eapply tol_in_tree; eauto.
+Qed.
